@@ -199,8 +199,15 @@ async fn run_node(body: &str) -> String {
     use p2panda::node::AckPolicy;
     let mut parts = body.split(';');
     let counts = h_common::nums(parts.next().unwrap_or(""));
-    let node = p2panda::builder().ack_policy(AckPolicy::Explicit).spawn().await.expect("node");
-    let store = node.store();
+    // The node runs on a pool we created ourselves, so that the cursors can be read back through
+    // a `SqliteStore` over the very same database (`Node::store()` is test-only).
+    let store: SqliteStore = SqliteStoreBuilder::memory().build().await.expect("store");
+    let node = p2panda::builder()
+        .ack_policy(AckPolicy::Explicit)
+        .database_pool(store.pool().clone())
+        .spawn()
+        .await
+        .expect("node");
     // Per-case unique topics: the node's database may be shared between nodes of one process.
     let salt = SALT.fetch_add(1, std::sync::atomic::Ordering::SeqCst) + 1;
     let topics: Vec<Topic> = (0..2u64).map(|t| topic(1000 * salt + t)).collect();
